@@ -412,7 +412,7 @@ def outcome_class(verb, ans):
 
 
 def requests(run, parts=PARTS, scale=1.0):
-    n = int(run.scale(300, 3000) * scale)
+    n = int(run.scale(600, 4000) * scale)
     reqs = []
     if "rxd" in parts:
         reqs += gen_rxd(run.rng, n)
@@ -457,5 +457,174 @@ LEAN_MODULES = ["OsmoVerif.Props.Trxcon"]
 LEAN_MODEL_MODULES = ["OsmoVerif.Model.TrxconIf", "OsmoVerif.Lemmas.TrxconIf"]
 
 
+# ----------------------------------------------------------------------------
+# property oracle on the real code (independent of the Lean model)
+
+CMD_RE = re.compile(r"^CMD [A-Z]+( -?[0-9]+)*$")
+# enum gsm_phys_chan_config (libosmocore) -> enum ChannelCombination (osmo-trx): NONE/FILL 0, CCCH = IV,
+# CCCH+SDCCH4 (+CBCH) = V, TCH/F = I, TCH/H = III, SDCCH8 (+CBCH) = VII, PDCH = XIII
+CHAN_COMB = {0: 0, 1: 4, 2: 5, 3: 1, 4: 3, 5: 7, 6: 13, 9: 5, 10: 7}
+
+
+def _parse_cmd_answer(ans):
+    """(rc, [queued command texts], [sent datagrams as bytes])"""
+    f = [x.strip() for x in ans.split("|")]
+    rc = int(f[0])
+    q = [] if f[1] == "q -" else [bytes.fromhex(x.split(":")[2]) if x.split(":")[2] != "-" else b"" for x in f[1].split()[1:]]
+    sent = [] if f[2] == "sent -" else [bytes.fromhex(x) if x != "-" else b"" for x in f[2].split()[1:]]
+    return rc, q, sent
+
+
 def oracle(run, corr, deep, parts=PARTS):
-    return 0
+    """property-level checks on the real trx_if.c (ASan+UBSan build, and the MSan build when
+    MSan runs here), written from the property texts, not from the Lean model:
+      rxd: a version-0 burst laid out per the protocol description is indicated with exactly
+           these fields (C04); no datagram makes the callback crash / read out of bounds (C14)
+      txd: the emitted datagram is the L1->TRX layout of the request (C04)
+      cmd: every emitted command is `CMD <VERB>[ <decimal>]*` NUL-terminated, < TRXC_BUF_SIZE,
+           carries the frequencies of the ARFCNs; SETFH has the length the formula gives (C05)
+      rsp: the reply the toolkit builds (RSP <VERB> <status> <args>[ <results>]\0) is accepted
+           (status 0), rejected as error (critical) or logged; MEASURE returns (arfcn, dBm);
+           no datagram makes the parser crash or use uninitialised values (C05, C14)
+    Every failing input is reported with run.report_witness; returns the number reported."""
+    exe = build(run)
+    msan = build_msan(run)
+    rng = run.rng
+    n = run.scale(300, 2000) * (5 if deep else 1)
+    found = 0
+
+    def witness(w):
+        nonlocal found
+        found += 1 if run.report_witness(w) else 0
+
+    def robust(kind, reqs):
+        """no CRASH, and the MSan build (if any) answers the same"""
+        out = vf.run_lines([exe], reqs)
+        bad = [(r, a) for r, a in zip(reqs, out) if a == "CRASH"]
+        if bad:
+            witness({"kind": kind + "-crash", "prop": "C14", "request": bad[0][0], "impl": "CRASH (ASan/UBSan abort or signal)",
+                     "count": len(bad)})
+        if msan:
+            out2 = vf.run_lines([msan], reqs)
+            for r, a, b in zip(reqs, out, out2):
+                if a != b and a != "CRASH":
+                    witness({"kind": kind + "-uninit", "prop": "C14", "request": r, "impl": a, "impl_msan": b})
+                    break
+        corr.distribution["oracle: %s robustness inputs" % kind] = len(reqs)
+        return out
+
+    if "rxd" in parts:
+        cases = []
+        for _ in range(n):
+            nb = pick(rng, [148, 148, 444])
+            cases.append((rng.randrange(8), rand_fn(rng), -pick(rng, [0, 47, 60, 120, 127, 128, rng.randrange(129)]),
+                          pick(rng, [0, -1, 1, 32767, -32768, rng.randrange(-32768, 32768)]), rand_soft(rng, nb),
+                          rng.random() < 0.4, pick(rng, [0, 2, 20, rng.randrange(0, 2 ** 32 - H)])))
+        reqs = ["tc.rxd %s %d" % (hx(layout_rx(tn, fn, rssi, toa, soft, leg)), adv) for tn, fn, rssi, toa, soft, leg, adv in cases]
+        out = vf.run_lines([exe], reqs)
+        for (tn, fn, rssi, toa, soft, leg, adv), r, a in zip(cases, reqs, out):
+            want = "0 | ind %d %d %d %d %d %s | rts %d %d" % (tn, fn, rssi, toa, len(soft), hx(bytes(x % 256 for x in soft)),
+                                                             (fn + adv) % H, tn)
+            if a != want:
+                witness({"kind": "trxcon-rx-decode", "prop": "C04", "request": r[:200],
+                         "fields": {"tn": tn, "fn": fn, "rssi": rssi, "toa256": toa, "nbits": len(soft), "legacy": leg, "fn_advance": adv},
+                         "impl": a[:300], "layout_demands": want[:300]})
+                break
+        corr.distribution["oracle: rx layout PDUs"] = len(reqs)
+        # FN beyond the hyperframe and foreign versions are not indicated
+        reqs = []
+        for fn in (H, H + 1, 2 ** 32 - 1):
+            reqs.append("tc.rxd %s" % hx(layout_rx(1, 0, -60, 0, [0] * 148, False)[:1] + fn.to_bytes(4, "big") + bytes(151)))
+        for a in vf.run_lines([exe], reqs):
+            if " ind " in a:
+                witness({"kind": "trxcon-rx-fn-range", "prop": "C04", "impl": a[:200]})
+        robust("trxcon-rx", [r for r in gen_rxd(rng, n)])
+
+    if "txd" in parts:
+        cases = [(rng.randrange(8), pick(rng, [0, H - 1, 2 ** 32 - 1, rng.randrange(2 ** 32)]), rng.randrange(256),
+                  [rng.randrange(2) for _ in range(pick(rng, [0, 148, 444, rng.randrange(507)]))]) for _ in range(n)]
+        reqs = ["tc.txd %d %d %d %d %s" % (tn, fn, pwr, len(bits), hx(bytes(bits))) for tn, fn, pwr, bits in cases]
+        out = vf.run_lines([exe], reqs)
+        for (tn, fn, pwr, bits), r, a in zip(cases, reqs, out):
+            want = "0 | %s" % hx(layout_tx(tn, fn, pwr, bits))
+            if a != want:
+                witness({"kind": "trxcon-tx-layout", "prop": "C04", "request": r[:200], "impl": a[:300], "layout_demands": want[:300]})
+                break
+        corr.distribution["oracle: tx layout requests"] = len(reqs)
+
+    if "cmd" in parts or "rsp" in parts:
+        # valid PHYIF commands and what the property demands of the emitted text
+        cases = [("RESET", ["CMD POWEROFF", "CMD ECHO"]), ("POWERON", ["CMD POWERON"]), ("POWEROFF", ["CMD POWEROFF"])]
+        for _ in range(n // 4):
+            a = valid_arfcn(rng)
+            cases.append(("MEASURE %d" % a, ["CMD MEASURE %d" % (freq10(a, 0) * 100)]))
+            cases.append(("SETFREQ_H0 %d" % a, ["CMD RXTUNE %d" % (freq10(a, 0) * 100), "CMD TXTUNE %d" % (freq10(a, 1) * 100)]))
+            ta = rng.randrange(-128, 128)
+            cases.append(("SETTA %d" % ta, ["CMD SETTA %d" % ta]))
+            tn, pchan = rng.randrange(8), rng.randrange(12)
+            cases.append(("SETSLOT %d %d" % (tn, pchan), ["CMD SETSLOT %d %d" % (tn, CHAN_COMB[pchan])] if pchan in CHAN_COMB else None))
+        for N in [1, 2, 8, 9, 16, 32, 48, 62, 63, 64] * (2 if not deep else 6):
+            ma = [valid_arfcn(rng, False if N > 62 else None) for _ in range(N)]
+            hsn, maio = rng.randrange(64), rng.randrange(64)
+            cases.append(("SETFREQ_H1 %d %d %d %s" % (hsn, maio, N, " ".join(map(str, ma))),
+                          ["CMD SETFH %d %d %s" % (hsn, maio, " ".join("%d %d" % (freq10(x, 0) * 100, freq10(x, 1) * 100) for x in ma))]))
+        reqs = ["tc.cmd " + c for c, _ in cases]
+        out = vf.run_lines([exe], reqs)
+        emitted = []
+        for (c, want), r, a in zip(cases, reqs, out):
+            if a == "CRASH":
+                witness({"kind": "trxcon-cmd-crash", "prop": "C05", "request": r[:300]})
+                continue
+            rc, q, sent = _parse_cmd_answer(a)
+            texts = [x.decode("latin-1") for x in q]
+            ok = rc == 0 and texts and all(CMD_RE.match(t) and len(t) + 1 < 1024 for t in texts) \
+                and sent == [q[0] + b"\0"] and (want is None or texts == want)
+            if not ok:
+                witness({"kind": "trxcon-cmd-form", "prop": "C05", "request": r[:300], "impl": a[:400],
+                         "demanded": want or "CMD SETSLOT <tn> <type>, NUL-terminated, one datagram"})
+                break
+            crit = [int(x.split(":")[0]) for x in a.split("|")[1].split()[1:]]
+            emitted += list(zip(texts, crit))
+        corr.distribution["oracle: emitted commands checked"] = len(emitted)
+
+    if "rsp" in parts:
+        # the reply the toolkit builds for a command (ctrl_if.py: "RSP <verb> <status>" + original
+        # arguments + results, NUL-terminated), for every kind of emitted command
+        cases = []
+        kinds = {}
+        for t, crit in emitted:
+            kinds.setdefault(t.split()[1] + str(min(len(t) // 400, 2)), []).append((t, crit))
+        pool = [pick(rng, v) for v in kinds.values() for _ in range(4 if not deep else 20)]
+        for t, crit in pool:
+            verb, _, args = t[4:].partition(" ")
+            for status in [0, 0, pick(rng, [1, -1, 2, 5, 255, -128, 2 ** 31 - 1, -2 ** 31])]:
+                res, meas = "", None
+                if verb == "MEASURE":
+                    dbm = rng.randrange(-120, 1)
+                    res = " %d" % dbm
+                    arfcn = next((x for x in range(1024) if freq10(x, 0) is not None and freq10(x, 0) * 100 == int(args)), None)
+                    if arfcn is None:
+                        arfcn = next(x | PCS for x in range(512, 811) if freq10(x | PCS, 0) * 100 == int(args))
+                    meas = (arfcn, dbm)
+                rsp = ("RSP %s %d%s%s" % (verb, status, " " + args if args else "", res)).encode() + b"\0"
+                if len(rsp) <= 1023:
+                    cases.append((t, crit, status, meas, "tc.rsp %s %d %s" % (hx(t), crit, hx(rsp))))
+        out = vf.run_lines([exe], [c[4] for c in cases])
+        for (t, crit, status, meas, r), a in zip(cases, out):
+            f = [x.strip() for x in a.split("|")] if a != "CRASH" else ["CRASH"] * 6
+            if status == 0:
+                ok = f[0] == "0" and f[1] == "accepted" and (meas is None or f[4] == "rsp %d %d" % meas)
+                dem = "accepted (return 0, command leaves the queue%s)" % ("" if meas is None else ", MEASURE result %d %d" % meas)
+            elif crit:
+                ok = f[0] == "-5" and f[1] == "rejected"
+                dem = "rejected as error (-EIO, interface terminated)"
+            else:
+                ok = f[0] == "0" and f[1] == "accepted" and f[3].endswith(" 1")
+                dem = "logged, command leaves the queue"
+            if not ok:
+                witness({"kind": "trxcon-rsp-accept", "prop": "C05", "command": t[:200], "critical": crit, "status": status,
+                         "request": r[:400], "impl": a[:300], "demanded": dem})
+                break
+        corr.distribution["oracle: toolkit-form replies"] = len(cases)
+        robust("trxcon-rsp", gen_rsp(rng, n))
+    return found
